@@ -119,7 +119,8 @@ Definition same_query (x' x : query) : Prop :=
 
 (* Cmd: every pending query afterwards is the new one or an old one, possibly with one more caller *)
 Lemma cmd_pending : forall s key c x', sinv s -> In x' (pending (handle_cmd s key c)) ->
-  (x' = {| qid := next_qid s; qkey := key; qcallers := [next_cid s]; qvers := []; qcfg := c |} /\
+  (x' = {| qid := next_qid s; qkey := key; qcallers := [next_cid s]; qvers := []; qcfg := c;
+                        qholders := cholders c |} /\
    join_query key (next_cid s) (pending s) = None) \/
   (exists x, In x (pending s) /\ same_query x' x /\ qvers x' = qvers x /\
      (qcallers x' = qcallers x \/ (qcallers x' = qcallers x ++ [next_cid s] /\ qkey x = key))).
@@ -428,7 +429,7 @@ Definition cmd_at (evs : list event) (c key : N) (cf : cfg) : Prop :=
 
 Definition KnownJoined (evs : list event) (c : N) : Prop :=
   exists pre key cf post x, evs = pre ++ Cmd key cf :: post /\ next_cid (final pre) = c /\
-    In x (pending (final pre)) /\ qkey x = key /\ qcfg x <> cf.
+    In x (pending (final pre)) /\ qkey x = key /\ strip_cfg (qcfg x) <> strip_cfg cf.
 
 Lemma cfg_eq_dec : forall a b : cfg, {a = b} + {a <> b}.
 Proof. repeat decide equality. Qed.
@@ -484,7 +485,7 @@ Qed.
    created under a different one *)
 Definition ginv (evs : list event) : Prop :=
   forall x c key cf, In x (pending (final evs)) -> In c (qcallers x) -> cmd_at evs c key cf ->
-    key = qkey x /\ (cf = qcfg x \/ KnownJoined evs c).
+    key = qkey x /\ (strip_cfg cf = strip_cfg (qcfg x) \/ KnownJoined evs c).
 
 Lemma ginv_all : forall evs, ginv evs.
 Proof.
@@ -493,7 +494,7 @@ Proof.
   - intros x' c key cf Hx Hc Hat. rewrite final_snoc in Hx.
     pose proof (reach_sinv _ _ _ (reach_run evs)) as I.
     assert (OLD : forall x, In x (pending (final evs)) -> In c (qcallers x) -> same_query x' x ->
-                  key = qkey x' /\ (cf = qcfg x' \/ KnownJoined (evs ++ [e]) c)).
+                  key = qkey x' /\ (strip_cfg cf = strip_cfg (qcfg x') \/ KnownJoined (evs ++ [e]) c)).
     { intros x A Hcx (B1 & B2 & B3). rewrite B2, B3.
       assert (Hlt : c < next_cid (final evs)).
       { apply (si_clt _ I). unfold callers_of. apply in_flat_map. exists x. auto. }
@@ -513,7 +514,7 @@ Proof.
             subst c. destruct B as (B1 & B2 & B3). rewrite B2, B3.
             apply cmd_at_snoc in Hat. destruct Hat as [Hat|[E N]]; [apply cmd_at_lt in Hat; lia|].
             injection E as Ek Ec. split; [rewrite <- Ek; symmetry; exact Dk|].
-            destruct (cfg_eq_dec cf (qcfg x)) as [Eq|Ne]; [left; exact Eq|]. right.
+            destruct (cfg_eq_dec (strip_cfg cf) (strip_cfg (qcfg x))) as [Eq|Ne]; [left; exact Eq|]. right.
             exists evs, key, cf, [], x. rewrite Ek, Ec. repeat split; auto;
               try (rewrite <- Ek; exact Dk); try (intro Eq; apply Ne; symmetry; exact Eq). }
     all: noncmd I Hx x A B1 B2 B3 C D;
@@ -532,15 +533,19 @@ Proof.
   destruct (find_query_split _ _ _ F) as (l1 & l2 & A & _ & _).
   assert (Hx : In x (pending (final pre))) by (rewrite A; apply in_or_app; right; left; reflexivity).
   destruct (ginv_all pre x c key cf Hx Hc Hat) as [_ [K|K]]; [|contradiction].
-  subst cf. exists q, ps. auto.
+  assert (K1 : cq cf = cq (qcfg x)) by (apply (f_equal cq) in K; exact K).
+  assert (K2 : ctarget cf = ctarget (qcfg x)) by (apply (f_equal ctarget) in K; exact K).
+  assert (K3 : cisreg cf = cisreg (qcfg x)) by (apply (f_equal cisreg) in K; exact K).
+  exists q, ps. rewrite K1. repeat split; auto.
+  unfold does_target_match in *. rewrite K2, K3. exact T.
 Qed.
 
 (* F10: a caller that joined the query of another caller is answered under that caller's
    configuration -- Quorum::All and a target are ignored *)
 Definition f10_T : record := {| rkey := 7; rcont := {| ckind := Some KChunk; cpay := POpaque 1 |}; rpub := None |}.
 Definition f10_R : record := {| rkey := 7; rcont := {| ckind := Some KChunk; cpay := POpaque 2 |}; rpub := None |}.
-Definition f10_first : cfg := {| cq := QOne; ctarget := None; cisreg := false |}.
-Definition f10_second : cfg := {| cq := QAll; ctarget := Some f10_T; cisreg := false |}.
+Definition f10_first : cfg := {| cq := QOne; ctarget := None; cisreg := false; cholders := [] |}.
+Definition f10_second : cfg := {| cq := QAll; ctarget := Some f10_T; cisreg := false; cholders := [] |}.
 Definition f10_pre : list event := [Cmd 7 f10_first; Cmd 7 f10_second].
 
 Lemma joined_caller_refuted_lemma :
@@ -564,7 +569,7 @@ Qed.
 
 (* non-vacuity: a three-peer majority read that succeeds, with a duplicate reply in between *)
 Example ok_example :
-  let cf := {| cq := QMajority; ctarget := Some f10_R; cisreg := false |} in
+  let cf := {| cq := QMajority; ctarget := Some f10_R; cisreg := false; cholders := [] |} in
   let pre := [Cmd 7 cf; Found 0 (Some 1) f10_R; Found 0 (Some 1) f10_R; Found 0 None f10_R] in
   In (0, OOk f10_R) (step_outs (final pre) (Found 0 (Some 3) f10_R)) /\ cmd_at pre 0 7 cf /\ ~ KnownJoined pre 0.
 Proof.
